@@ -48,7 +48,7 @@ ASSUMPTIONS = ['header names exclude the characters for which C04 records '
 WRAPBIN = os.path.join(VERIF, 'tools', 'wrapbin')
 KF_SOURCE = 'inc/cannot-proceed/renamed-source-after-failed-compile'
 PCH = 'pch.h'
-OBJ_NAMES = ['obj{}', 'obj{}', 'my obj{}', 'o$bj{}', 'o#bj{}', 'od ir/obj{}']
+OBJ_NAMES = ['obj{}', 'my obj{}', 'o$bj{}', 'o#bj{}', 'od ir/obj{}']
 HEADER_NAMES = ['h1.h', 'my hdr.h', 'h#2.h', 'h$3.h', 'inc/h4.h', 'h+5.h',
                 'h@6.h', 'inc/sub dir/h7.h', 'h8.hpp', 'h-9.h']
 
@@ -165,7 +165,8 @@ class IncMachine(RuleBasedStateMachine):
                 unique=True)) if earlier else []
         for i, t in enumerate(self.tus):
             self.ver[t] = i + 1
-            k = data.draw(st.integers(0, min(2, len(headers))))
+            k = data.draw(st.integers(min(1, len(headers)),
+                                      min(2, len(headers))))
             self.includes[t] = data.draw(st.lists(
                 st.sampled_from(headers), min_size=k, max_size=k,
                 unique=True)) if headers else []
